@@ -195,9 +195,9 @@ def main(argv):
             return 0
 
         # ---- workload ------------------------------------------------------
-        nprog = 16 if tier == "quick" else 150
-        nplans = 8 if tier == "quick" else 12
-        ngen = 6 if tier == "quick" else 60
+        nprog = 30 if tier == "quick" else 150
+        nplans = 10 if tier == "quick" else 12
+        ngen = 12 if tier == "quick" else 60
         cs = worlds.corpus(max_bytes=8000)
         rng0 = vsim.Rng(seed, "c08-programs")
         rng0.shuffle(cs)
@@ -246,7 +246,7 @@ def main(argv):
         batch_cases = []
         okprogs = [i for i, pr in enumerate(progs) if pr["ref"].rc == 0]
         rngb = vsim.Rng(seed, "c08-batch")
-        nb = 6 if tier == "quick" else 120
+        nb = 10 if tier == "quick" else 120
         bopts = ["-Q2", "-Fao", "-Ffm", "-Fc", "-Flsp"]
         for _ in range(nb):
             if len(okprogs) < 2:
